@@ -1,6 +1,8 @@
 import HypatiaProofs.Lemmas.CqeNormal
 import HypatiaProofs.Lemmas.CqeSubst
 import HypatiaProofs.Lemmas.CqeQuery
+import HypatiaProofs.Lemmas.CqeExec
+import HypatiaProofs.Properties.C04
 
 /-!
 # C10  Query-expression strings parse to exactly the query they spell
@@ -311,6 +313,80 @@ theorem c10_embeds_in_query_algebra (ix : String → Option Nat) (k : BoolK) (qs
   · simp only [Q.mk, Q.toQuery?, toQueryL?_flatMap_or]
     cases Q.toQueryL? ix qs <;> simp [Hyp.Query.mkOr]
 
+/-! ## executing the parsed object = C04's specification of the hand-built tree with the names substituted
+
+`execParsed` (`HypatiaModel/CqeExec.lean`): `walk`'s result, every leaf resolved against `names`
+(`resolveTree`), then `_apply` over a catalog of index models (`applyQM`, C04).  `q.substW σ`: the hand-built
+tree with every name replaced by its binding; `W.toQuery?`: that object as a tree of the query algebra. -/
+
+/-- resolving the parsed object is substituting into the hand-built tree (any mapping): the resolved object is
+the substituted tree, `NameError` iff some name of some leaf – at any depth of lists and tuples – is unbound -/
+theorem c10_resolution_is_substitution (cat : List String) (s : Sx) (q : Q) (ht : s.tree = some q)
+    (hc : s.inCat cat = true) (m : List (String × W)) :
+    ∃ w, parse cat [.expr s.toAst] = .ok w ∧
+      resolveTree (some m) w =
+        (match q.substW (sigmaOf m) with
+         | some w' => .ok w'
+         | none => .error .nameError) ∧
+      (q.substW (sigmaOf m) = none ↔ ∃ n, n ∈ q.names ∧ m.lookup n = none) :=
+  ⟨embed q, c10_spelling_parses cat s q ht hc, resolveTree_embed m q, substW_none_iff (sigmaOf m) q⟩
+
+/-- **parse ∘ substitute ∘ execute = spec.**  For every spelling `s` of a tree `q` over the catalog's index
+names (hypothesis of D11: the text spells a query tree – bare values in query position are returned, not
+rejected), every names mapping `m` that binds every name of the tree, every numbering `ix` of the index
+names, every catalog of index models after arbitrary histories `hs` (C03's hypotheses `HistsOK` for its text
+indexes): the parsed object exists, the substituted hand-built tree exists, and when the latter lies in the
+query algebra (`qA`: integer values) executing the parsed object with `names = m`
+
+* has the outcome of `_apply` over the specification tables on `qA` (same error, or same members), and
+* returns exactly the members of the set-theoretic reading `sem … qA` – comparator meanings, intersection,
+  union, complement – when `qA`'s comparators are implemented by their index classes and it has no
+  `All`/`NotAll` (hypothesis of D2; `Total` for trees with a `Not`).
+
+Otherwise (a bound value that is not an integer or a list of integers) `execParsed` says `notInAlgebra`. -/
+theorem c10_parse_substitute_execute (cat : List String) (s : Sx) (q : Q) (ht : s.tree = some q)
+    (hc : s.inCat cat = true) (m : List (String × W)) (hb : ∀ n ∈ q.names, (m.lookup n).isSome = true)
+    (ix : String → Option Nat) (hs : List Hyp.Query.IndexH) (hok : Hyp.Query.HistsOK hs) :
+    ∃ w wq, parse cat [.expr s.toAst] = .ok w ∧ q.substW (sigmaOf m) = some wq ∧
+      (wq.toQuery? ix = none → ∃ e, execParsed ix (Hyp.Query.modelCatalog hs) (some m) w = .error e) ∧
+      ∀ qA, q.substQuery? ix (sigmaOf m) = some qA → Hyp.Query.leavesListed hs qA = true →
+        (∀ e, execParsed ix (Hyp.Query.modelCatalog hs) (some m) w = .error (.query e) ↔
+          Hyp.Query.applyQ (Hyp.Query.specCatalog hs) qA = .error e) ∧
+        (∀ r, execParsed ix (Hyp.Query.modelCatalog hs) (some m) w = .ok r →
+          ∃ r', Hyp.Query.applyQ (Hyp.Query.specCatalog hs) qA = .ok r' ∧ ∀ d, d ∈ r ↔ d ∈ r') ∧
+        (Hyp.Query.wellTypedStrict (Hyp.Query.specCatalog hs) qA = true →
+          (Hyp.Query.Total (Hyp.Query.specCatalog hs) ∨ Hyp.Query.noNot qA = true) →
+          ∃ r r', execParsed ix (Hyp.Query.modelCatalog hs) (some m) w = .ok r ∧
+            Hyp.Query.sem (Hyp.Query.specCatalog hs) qA = .ok r' ∧ ∀ d, d ∈ r ↔ d ∈ r') := by
+  obtain ⟨wq, hwq⟩ := substW_of_bound m q hb
+  have hres : resolveTree (some m) (embed q) = .ok wq := by rw [resolveTree_embed, hwq]
+  refine ⟨embed q, wq, c10_spelling_parses cat s q ht hc, hwq, ?_, ?_⟩
+  · intro hn
+    exact ⟨.notInAlgebra, by simp only [execParsed, hres, hn]⟩
+  · intro qA hqA hl
+    have hq' : wq.toQuery? ix = some qA := by simpa [Q.substQuery?, hwq] using hqA
+    have hex : execParsed ix (Hyp.Query.modelCatalog hs) (some m) (embed q) =
+        (match Hyp.Query.applyQM (Hyp.Query.modelCatalog hs) qA with
+         | .error e => .error (.query e)
+         | .ok r => .ok r) := by
+      simp only [execParsed, hres, hq']
+      cases Hyp.Query.applyQM (Hyp.Query.modelCatalog hs) qA <;> rfl
+    obtain ⟨e1, e2, e3⟩ := Hyp.Query.c04_end_to_end hs qA hok hl
+    refine ⟨fun e => ?_, fun r hr => ?_, fun hw hT => ?_⟩
+    · rw [hex, ← e1 e]
+      cases Hyp.Query.applyQM (Hyp.Query.modelCatalog hs) qA <;> simp
+    · rw [hex] at hr
+      cases hM : Hyp.Query.applyQM (Hyp.Query.modelCatalog hs) qA with
+      | error e => rw [hM] at hr; cases hr
+      | ok r0 =>
+        rw [hM] at hr
+        simp only [Except.ok.injEq] at hr
+        subst hr
+        exact e2 _ hM
+    · obtain ⟨ra, rs, ha, hsem, hm⟩ := Hyp.Query.c04_apply_is_sem_partial _ qA hw hT
+      obtain ⟨r, hr, hrm⟩ := e3 ra ha
+      refine ⟨r, rs, by rw [hex, hr], hsem, fun d => (hrm d).trans (hm d)⟩
+
 /-! ## non-vacuity -/
 
 /-- `1 == True == 1.0`, `-0.0 == 0`, `2**53 + 1 != float(2**53)`, `'a' != b'a'` -/
@@ -351,5 +427,32 @@ example :
       .ok (.tuple [.list [.const (.int 5)], .const .none]) ∧
     getValue (some [("x", .const (.int 5))]) (embedV (.list [.name "y"])) = .error .nameError := by
   simp [c10_subst, V.subst, V.substs, sigmaOf, List.lookup]
+
+/-- `a >= x and not b in any([1, y])` with `x = 5`, `y = 3` over a field index `a` (re-indexed document) and a
+keyword index `b`: the hypotheses of `c10_parse_substitute_execute` are met (spelling of the tree, every name
+bound, the substituted tree in the algebra and well typed without `All`), the substituted tree is
+`And(Ge(a, 5), Not(Any(b, [1, 3])))`, and both sides give `{2}` -/
+example :
+    let s : Sx := .kw .and [.cmp .ge ⟨"a", []⟩ (.name ⟨"x", []⟩),
+      .not (.cmp .any ⟨"b", []⟩ (.list [.lit (.int 1), .name ⟨"y", []⟩]))]
+    let q : Q := .and [.cmp .ge "a" (.name "x"), .not (.cmp .any "b" (.list [.const (.int 1), .name "y"]))]
+    let m : List (String × W) := [("x", .const (.int 5)), ("y", .const (.int 3))]
+    let ix : String → Option Nat := fun n => if n = "a" then some 0 else if n = "b" then some 1 else none
+    let hs : List Hyp.Query.IndexH :=
+      [.field [.index 1 (some 5), .index 2 (some 7), .index 3 (some 4), .index 2 (some 8)],
+       .keyword [.index 1 (some [1, 2]), .index 2 (some [2]), .index 3 (some [3])]]
+    let qA : Hyp.Query.Q := .and [.cmp .ge 0 (.one 5), .not (.cmp .any 1 (.many [1, 3]))]
+    s.tree = some q ∧ s.inCat ["a", "b"] = true ∧ (∀ n ∈ q.names, (m.lookup n).isSome = true) ∧
+      q.substQuery? ix (sigmaOf m) = some qA ∧
+      Hyp.Query.wellTypedStrict (Hyp.Query.specCatalog hs) qA = true ∧
+      execParsed ix (Hyp.Query.modelCatalog hs) (some m) (embed q) = .ok [2] ∧
+      Hyp.Query.sem (Hyp.Query.specCatalog hs) qA = .ok [2] := by
+  intro s q m ix hs qA
+  refine ⟨?_, ?_, ?_, rfl, rfl, rfl, rfl⟩
+  · simp [s, q, Sx.tree, Sx.trees, SV.val, SV.vals, Q.mk, Q.flatOf, Dotted.id]
+  · simp [s, Sx.inCat, Sx.allInCat, Dotted.id]
+  · intro n hn
+    simp [q, Q.names, Q.namesL, V.names, V.namesL] at hn
+    rcases hn with rfl | rfl <;> rfl
 
 end Hyp.Cqe
